@@ -1,10 +1,10 @@
 CONSTANTS
-  SectorSize = 4096
+  SectorSize = 4
   TableSize = 4
   HetSize = 8
   FlagFix = TRUE
-  UseHetBet = FALSE
-  BetFix = FALSE
+  UseHetBet = TRUE
+  BetFix = TRUE
   NameHash <- MCNameHash
   LibFileKey <- MCFileKey
   Het8 <- MCHet8
@@ -25,4 +25,5 @@ INVARIANT AbsentNotFound
 INVARIANT HetBetAnswersOwn
 INVARIANT BetFixAnswers
 INVARIANT AsIsAlwaysFallsBack
+INVARIANT FixRemovesDeviation
 CHECK_DEADLOCK FALSE
